@@ -27,6 +27,7 @@ EXHAUSTIVE = {
                  "row matrices: all pairs of row lists of length <= 3 over alphabet {0,1} with 1 column and length <=2 with 2 columns": "complete"},
 }
 NPINT_ARGS = True     # a quarter of the cases pass their integer arguments as NumPy integers (core.Ctx.begin)
+STRIDED_ARGS = True   # a quarter of the cases pass every array argument as a strided, non-contiguous view (core.Ctx.begin)
 WATCHDOG = {"quick": 600, "thorough": 3000}
 
 
